@@ -34,7 +34,7 @@ let string_of_str (l : n list) : string =
 let unhex (s : string) : string =
   String.init (String.length s / 2) (fun i -> Char.chr (int_of_string ("0x" ^ String.sub s (2 * i) 2)))
 let hex (s : string) : string =
-  String.concat "" (List.init (String.length s) (fun i -> Printf.sprintf "%02x" (Char.code s.[i])))
+  "h" ^ String.concat "" (List.init (String.length s) (fun i -> Printf.sprintf "%02x" (Char.code s.[i])))
 
 let words (l : string) : string list = List.filter (fun w -> w <> "") (String.split_on_char ' ' l)
 let join sep f l = String.concat sep (List.map f l)
@@ -177,7 +177,7 @@ let run_parse id (lines : string list) =
       let text = match rest with [h] -> unhex h | _ -> "" in
       let (ps, ok) = parse (str_of_string text) in
       emit id "parse" ((if ok then "OK" else "ERR") ^ " names=" ^ join "," (fun s -> hex (string_of_str s)) ps.names
-                       ^ " acs=" ^ join ";" (fun (nm, f) -> hex (pform_string f)) ps.acs)
+                       ^ " acs=" ^ join ";" (fun (nm, f) -> hex (string_of_str nm) ^ ":" ^ hex (pform_string f)) ps.acs)
     | [] -> ()
     | _ -> failwith "bad parse line") lines
 
